@@ -44,6 +44,7 @@ def run(prog, chk):
     from props import C10
     chk.rule(C10.error_swallow, prog, chk)  # a clip-path / reference that cannot be parsed or resolved is an error, not "no clip"
     chk.rule(C10.registration, prog, chk)  # an element placed against a target that is not resolved yet has no (or a wrong) box in the extent
+    chk.rule(C10.registry_discipline, prog, chk)  # ... and stays invisible until it is: withdrawn unconditionally, never found again as written
     # the fold of a box through the transform list is decided by the evaluated site `transform-fold` (A17)
     chk.rule(config_is_incremental, prog, chk)
     from props import C07
